@@ -20,7 +20,12 @@ const (
 	sigFinal     = 7
 )
 
-func computeRuleClasses(t *Tables, g *Grammar) []int {
+// computeRuleClasses splits rules into classes of rules that are indistinguishable for generated
+// parsers: reducing by any rule of a class must have the same observable effect.
+//
+// Rules ending with a nullable nonterminal are kept apart from the rest since parsers with
+// fixWhitespace = true trim trailing empty symbols from the reported range on a per-rule basis.
+func computeRuleClasses(t *Tables, g *Grammar, empty container.BitSet) []int {
 	numRules := len(t.RuleLen) // includes Lookaheads
 	ruleClass := make([]int, numRules)
 
@@ -30,16 +35,27 @@ func computeRuleClasses(t *Tables, g *Grammar) []int {
 		action int
 		typ    int
 		flags  string
+
+		trailingNull bool // the last symbol is a nullable nonterminal
 	}
 	ruleToClass := make(map[ruleKey]int)
 
 	for i, r := range g.Rules {
+		var trailingNull bool
+		for k := len(r.RHS) - 1; k >= 0; k-- {
+			if sym := r.RHS[k]; !sym.IsStateMarker() {
+				trailingNull = empty.Get(int(sym))
+				break
+			}
+		}
 		key := ruleKey{
 			lhs:    int(r.LHS),
 			length: t.RuleLen[i],
 			action: r.Action,
 			typ:    r.Type,
 			flags:  strings.Join(r.Flags, ","),
+
+			trailingNull: trailingNull,
 		}
 		if class, ok := ruleToClass[key]; ok {
 			ruleClass[i] = class
@@ -173,10 +189,10 @@ func refinePartitions(partition []int, partitions *container.IntSliceSet, t *Tab
 }
 
 // minimize tries to compact the automaton by merging equivalent states (lead to the
-// same set of parsing actions for any given input).
-func minimize(t *Tables, g *Grammar) {
+// same set of parsing actions for any given input). "empty" is the set of nullable nonterminals.
+func minimize(t *Tables, g *Grammar, empty container.BitSet) {
 	numStates := t.NumStates
-	ruleClass := computeRuleClasses(t, g)
+	ruleClass := computeRuleClasses(t, g, empty)
 	partition, partitions := partitionStatesByAction(t, g, ruleClass, numStates)
 	partition, partitions = refinePartitions(partition, partitions, t)
 
